@@ -805,7 +805,7 @@ def gen_history(seed, nops=None):
         objs.append(d)
     ops = []
     n = nops or rng.randint(4, 10)
-    npath = rng.randint(1, 3)
+    npath = rng.randint(1, 5)
     for _ in range(n):
         c = rng.weighted([("dump", 8), ("load", 8), ("dump_fault", 4), ("redump", 4), ("load_fault", 2), ("short", 4), ("subclass", 1)])
         if c == "subclass":
@@ -827,6 +827,7 @@ def gen_history(seed, nops=None):
 
 
 def exec_history(hist, spec, real_dir=None):
+    os.environ["VERIF_TAG"] = "node07"  # defined on purpose: file names that contain $VERIF_TAG stay literal
     ck = Checker(real_dir)
     ck.env = bool(hist.get("env"))
     fs = ck.fs
@@ -862,7 +863,8 @@ def exec_history(hist, spec, real_dir=None):
             ob = objs[op["obj"]]
             kind, fmt = ob["kind"], ob["fmt"]
             # one path namespace per (path index); extension follows the object's format
-            path = "%s/%s%s" % (ROOT, ["p0", "run.1.p1", "p2.v3.final"][op["path"] % 3], EXT[fmt])
+            # (file names may contain "$", "~" and "%": a name is a name, not a shell expression)
+            path = "%s/%s%s" % (ROOT, ["p0", "run.1.p1", "p2.v3.final", "set_$VERIF_TAG", "~set.${VERIF_TAG}"][op["path"] % 5], EXT[fmt])
             c = op["op"]
             ck.stats["op_" + c] += 1
             ck.dg.add(c, op["obj"], op["path"])
@@ -1220,6 +1222,8 @@ def plan(tier, seed, args):
         for d in range(ndraw):
             desc = {"obj": "map", "cls": nm, "style": d % 4, "seed": rng.below(10**6)}
             cases.append({"kind": "enum", "desc": desc, "fmt": "yaml"})
+    cases.append({"kind": "enum", "desc": {"obj": "featurelist", "n": 0, "seed": 1}, "fmt": "yaml"})  # a list without entries is a list
+    cases.append({"kind": "enum", "desc": {"obj": "featurelist", "n": 1, "seed": 2}, "fmt": "yaml"})
     for d in range(ndraw):
         cases.append({"kind": "enum", "desc": {"obj": "featurelist_all", "seed": rng.below(10**6)}, "fmt": "yaml"})
         cases.append({"kind": "enum", "desc": {"obj": "featurelist", "n": rng.randint(2, 9), "seed": rng.below(10**6)}, "fmt": "yaml"})
